@@ -29,17 +29,30 @@ Ops == TypeOps \cup StructOps \cup RefOps
 
 Entries == {"data", "datapath", "file"}
 
-VARIABLES muts, entry, allow, yaml
-vars == <<muts, entry, allow, yaml>>
+(* Base documents.  "full": harness/c20_doc.json, every object kind in use.  Sparse bases are   *)
+(* WELL-FORMED two-file documents: the root's single operation refers to component X of one     *)
+(* kind in ext.json (whose child sites refer on to further components of ext.json), and the     *)
+(* root's own components section is absent / empty / holds only a component of another kind /   *)
+(* only one of the same kind -- InternalizeRefs then has to create every map it writes to.      *)
+SparseKinds == {"schemas", "parameters", "headers", "requestBodies", "responses", "examples", "links", "callbacks"}
+Layouts == {"none", "empty", "other_only", "same_only"}
+FullBase == [kind |-> "-", comps |-> "full"]
+Bases == {FullBase} \cup [kind : SparseKinds, comps : Layouts]
+CONSTANTS SparseNodes,   \* node indices used on a sparse base
+          SparseOps      \* operators applied (singly) to a sparse base
 
-Init == muts = <<>> /\ entry \in Entries /\ allow \in BOOLEAN /\ yaml \in BOOLEAN
+VARIABLES muts, entry, allow, yaml, base
+vars == <<muts, entry, allow, yaml, base>>
+
+Init == muts = <<>> /\ entry \in Entries /\ allow \in BOOLEAN /\ yaml \in BOOLEAN /\ base \in Bases
 
 Mutate(op, n) ==
    /\ Len(muts) < MaxMut
    /\ (Len(muts) >= 1 => (n % PairStride = Seed % PairStride          \* pairs on a seeded slice of the nodes,
                            /\ entry = "data" /\ allow /\ ~yaml))      \* JSON through LoadFromData only
+   /\ (base # FullBase => (muts = <<>> /\ n <= SparseNodes /\ op \in SparseOps))
    /\ muts' = Append(muts, [op |-> op, node |-> n])
-   /\ UNCHANGED <<entry, allow, yaml>>
+   /\ UNCHANGED <<entry, allow, yaml, base>>
 
 Next == \E op \in Ops, n \in 1..NNodes : Mutate(op, n)
 Spec == Init /\ [][Next]_vars
@@ -47,8 +60,10 @@ Spec == Init /\ [][Next]_vars
 (* every case is run through LoadFromData as JSON with external refs allowed; the other entry  *)
 (* points, the YAML rendering and the switch set to off are added for the reference operators,  *)
 (* null, delete and truncate (where location handling and the YAML reader matter)               *)
-Emitted == /\ ((yaml \/ ~allow) => entry = "data")
-           /\ ((yaml \/ ~allow \/ entry # "data") => \E i \in DOMAIN muts : muts[i].op \in RefOps \cup {"to_null", "delete", "truncate_here"})
+Emitted == /\ (base = FullBase => muts # <<>>)
+           /\ (base # FullBase => (allow /\ ~yaml /\ entry \in {"file", "datapath"}))      \* the unmutated sparse document is a case
+           /\ ((yaml \/ ~allow) => entry = "data")
+           /\ ((base = FullBase /\ (yaml \/ ~allow \/ entry # "data")) => \E i \in DOMAIN muts : muts[i].op \in RefOps \cup {"to_null", "delete", "truncate_here"})
 
 -----------------------------------------------------------------------------
 (* L1: outcome alphabet and sequencing of one run                                          *)
